@@ -210,6 +210,7 @@ SPECS.append({
   H("C02", DB, "Ties5", "thorough", ["compared", "nonempty"], "5 commands, maps <=4 entries", "repeated SearchUniversal"),
   H("C02", DB, "Reload", "both", ["compared"], "two independently built databases, NLP on", "re-loading the same content"),
   H("C02", DB, "Suggestions", "both", ["compared"], "3-word candidate set, all orders", "did-you-mean reproducibility"),
+  H("C02", "internal/nlp", "TFIDFSearch", "both", ["compared"], "one model, 4 queries (3-4 distinct vocabulary terms), query-side and dot-product maps <=3 entries in all orders", "repeated TF-IDF search bit-identical"),
   H("C02", "internal/nlp", "TFIDF", "thorough", ["compared"], "3 documents, three-term float sums, maps <=3 entries in all orders", "norms / similarities bit-identical", max_paths=400000),
  ],
  "manifest": {"text": "Self-composed bounded model checking with the runtime's map iteration order as the explored nondeterminism (all permutations for maps up to k entries); outputs of two runs must coincide position by position and bit by bit.",
@@ -226,6 +227,7 @@ SPECS.append({
  "harnesses": [
   H("C05", DB, "Delta", "both", ["searched", "done"], "2 requests; 6 symbolic flags x 2 limits; 10 one-field deltas; 4x4 query variants", "requests that differ in anything that changes the answer never share an entry", synctest=True),
   H("C05", DB, "PairsMonitored", "both", ["searched", "done"], "2 requests through the monitoring wrapper; 6 option sets x 5 queries each", "monitored wrapper's own projection", synctest=True),
+  H("C05", DB, "OffOn", "both", ["searched", "done"], "search; optionally disable; replace / invalidate / nothing; optionally search while off; enable; search", "no entry outlives a replacement made while the cache is off (also C01 on the cached path)", synctest=True),
   H("C05", DB, "Hist3", "thorough", ["searched", "done"], "search, one of 6 operations, search", "no entry outlives invalidation / replacement; disabled cache is bypassed", synctest=True),
   H("C05", DB, "Hist4", "thorough", ["searched", "done"], "4 steps", "same", synctest=True),
  ],
